@@ -14,16 +14,28 @@ MARK = '## 13. Table: seeded breakages and the check that catches each'
 
 def main():
     rows = {}
-    for log in sys.argv[1:]:
+    rates = {}
+    args = sys.argv[1:]
+    if '--rates' in args:
+        i = args.index('--rates')
+        for line in open(args[i + 1]):
+            m = re.match(r'^(\S+)\s.*schedules=(\d+).*violations=(\d+)', line)
+            if m:
+                rates[m.group(1)] = (int(m.group(3)), int(m.group(2)))
+        del args[i:i + 2]
+    for log in args:
         for line in open(log):
             m = re.match(r'^(\S+)\s+(C\d\d)\s+(detected|MISSED|harness-error|ERROR|exit \d+)\s*(.*)$', line.rstrip('\n'))
             if m:
                 rows[(m.group(1), m.group(2))] = (m.group(3), m.group(4))
     out = [MARK, '',
            'Quick tier, default budget, `--no-minimise`, on a scratch copy of the current tree with the patch applied '
-           '(`tools/mutants.py`). "first classes" are the first violation classes printed.', '',
-           '| mutant | breaks | what it is (from meta.json) | check | result | first classes reported |',
-           '|---|---|---|---|---|---|']
+           '(`tools/mutants.py`). "first classes" are the first violation classes printed. For C17 the last column '
+           'gives, from a separate quick run that did not stop at the first violation, how many of its executions '
+           'violated (violating / all schedules executed): the smaller the number, the more a single quick run '
+           'depends on luck.', '',
+           '| mutant | breaks | what it is (from meta.json) | check | result | first classes reported | C17: violating executions per quick run |',
+           '|---|---|---|---|---|---|---|']
     names = sorted(set(k[0] for k in rows))
     for name in names:
         meta_p = os.path.join(HERE, 'seeded', name, 'meta.json')
@@ -40,8 +52,10 @@ def main():
             if n != name:
                 continue
             cl = '; '.join(re.sub(r'\s+', ' ', c)[:110] for c in classes.split('; ')[:2]).replace('|', '/')
-            out.append('| {0} | {1} | {2} | {3} | {4} | {5} |'.format(
-                name, meta.get('property', '?'), title, prop, status, cl))
+            rt = rates.get(name) if prop == 'C17' else None
+            out.append('| {0} | {1} | {2} | {3} | {4} | {5} | {6} |'.format(
+                name, meta.get('property', '?'), title, prop, status, cl,
+                '{0} / {1}'.format(*rt) if rt else ''))
     text = '\n'.join(out) + '\n'
     p = os.path.join(HERE, 'DESIGN.md')
     s = open(p).read()
